@@ -74,11 +74,24 @@ pub struct CliArgs {
     pub kt_ratio: Option<f64>,
     pub max_step_size: Option<f64>,
     pub convergence: Option<f64>,
+    /// number of -v flags
+    #[serde(default)]
+    pub verbosity: u8,
+    /// --start-config <path> (accepted by the argument parser)
+    #[serde(default)]
+    pub start_config: Option<String>,
 }
 
 impl CliArgs {
     pub fn to_argv(&self, outfile: &Path) -> Vec<String> {
         let mut a: Vec<String> = vec![];
+        for _ in 0..self.verbosity {
+            a.push("-v".into());
+        }
+        if let Some(p) = &self.start_config {
+            a.push("--start-config".into());
+            a.push(p.clone());
+        }
         if let Some(p) = &self.potential {
             a.push("--potential".into());
             a.push(p.clone());
